@@ -217,8 +217,9 @@ def all_bases(tier):
             for k, line in enumerate(lines):
                 for a, b in c16.outside_quotes(line):
                     depth += line[a:b].count("{") - line[a:b].count("}")
-                if depth == 0 and not line.rstrip().endswith(","):
-                    bounds.append(k + 1)
+                nxt = lines[k + 1].strip() if k + 1 < len(lines) else ""
+                if depth == 0 and not line.rstrip().endswith(",") and not (nxt.startswith("else") or nxt.startswith(".else")):
+                    bounds.append(k + 1)   # (a line that starts with `else` continues the .if statement of the line before)
             bases["gen-" + name] = (lines, bounds, files)
     return bases
 
@@ -356,6 +357,8 @@ def run_fault(name, fault, sit):
     outcomes = set()
     evals = nt = 0
     example = None
+    if fault == "text-without-table" and any(".table" in ln_ for ln_ in lines):
+        return {"evals": 1, "nt_count": 0, "outcome": ["not-applicable-here"], "violations": []}  # the program loads a table: .text is valid
     for at in insertable:
         if fault == "unterminated-string-at-eof" and at != len(lines):
             continue
